@@ -9,7 +9,10 @@ else head" and new "new value logged at n, read = last log at or below n else ze
 truth, after any interleaving of block additions and head reverts.
 Binding: TLC-simulated behaviours (ApplyBlock / RevertHead, forks) are replayed into real
 blockchain.Blockchain nodes on both state backends; after EVERY step every query is issued through
-HeadState / StateAtBlockNumber / StateAtBlockHash and compared with the model's TrueState.
+HeadState / StateAtBlockNumber / StateAtBlockHash and compared with the model's TrueState. The node
+is restarted at random points (Restart is a no-op of the model: RestartIsNoOp), and readers
+obtained by number / by hash at earlier steps are kept ("held readers") and must keep answering
+for their own block while later blocks are stored.
 """
 import copy
 import json
@@ -86,6 +89,7 @@ def run(ctx):
     if thorough:
         r = ctx.tlc_check("chain", "MCStateHistory.tla", "StateHistory_thorough.cfg", timeout=3000, coverage=True)
         vlib.require_actions_covered(r)
+        ctx.tlc_check("chain", "MCStateHistory.tla", "StateHistory_ops3_thorough.cfg", timeout=3000)
         ctx.tlc_check("chain", "MCStateHistory.tla", "StateHistory_sys_thorough.cfg", timeout=3000)
         ctx.tlc_check("chain", "MCStateHistory.tla", "StateHistory_casm_thorough.cfg", timeout=3000)
 
@@ -102,6 +106,7 @@ def run(ctx):
         "system contracts 0x1/0x2 never receive a zero write (SysZeroWrites = FALSE): they hold block hashes and counters",
         "a class is declared at most once per chain and every class definition a block delivers is listed in its declared classes",
         "no pruning (retention floor absent): every block <= head is retained",
+        "a held reader is checked as long as its block is on the chain; after a RevertHead that removes its block, or a restart, it is dropped (closed)",
     ]
     return ctx.finish(
         "model_checking",
